@@ -141,9 +141,24 @@ Proof. intro H. destruct (comment_spec _ _ _ _ H) as (ls & -> & _). reflexivity.
     the record is the requested one, within [0, max_volume]; the multi-dispense count is the requested
     one if count * volume fits into max_volume, otherwise floor(max_volume / volume), the largest count
     that fits *)
+(** the comment lines an accepted call writes for its label *)
+Definition label_lines (c : option string) : list string :=
+  match c with
+  | Some l => if String.eqb l "" then [] else comment_lines l
+  | None => []
+  end.
+
+Lemma comment_ok_lines w c w' : comment w c = (w', None) -> w' = emit w (map RC (label_lines c)).
+Proof.
+  unfold comment, label_lines. intro H. destruct c as [l|]; [|injection H as <-; rewrite emit_nil; reflexivity].
+  destruct (String.eqb l ""); [injection H as <-; rewrite emit_nil; reflexivity|].
+  destruct (contains_char semi l); [discriminate H|]. injection H as <-. reflexivity.
+Qed.
+
 Theorem distribute_multi s ks kd dwells a s' :
   distribute s ks kd dwells a = (s', None) ->
   exists ls f,
+    ls = label_lines (d_label a) /\
     st_wl s' = emit (st_wl s) (map RC ls ++ [RR f]) /\
     match d_volume a with
     | RVInt z => r_volume f = PyI z
@@ -167,7 +182,7 @@ Proof.
   all: match goal with Ec : comment _ _ = (_, None) |- _ =>
          rewrite ?st_wl_condense in Ec; cbn [st_wl set_wl set_lw] in Ec;
          pose proof (comment_max _ _ _ _ Ec) as Hmax;
-         destruct (comment_spec _ _ _ _ Ec) as (ls & Wc & _) end.
+         pose proof (comment_ok_lines _ _ _ Ec) as Wc end.
   all: match goal with Er : reagent_distribution _ _ = (_, None) |- _ =>
          destruct (reagent_distribution_spec _ _ _ _ Er) as (f1 & v1 & Hw & _);
          destruct (reagent_distribution_multi _ _ _ Er) as (f & Hrecs & Hvol & H0 & Hle & Hfit & Hreq & Hclamp)
@@ -175,7 +190,8 @@ Proof.
   all: cbn [rd_volume rd_multi_disp] in Hvol, Hreq, Hclamp; rewrite Hmax in *.
   all: assert (Ef : f1 = f)
          by (rewrite Hw in Hrecs; cbn [w_recs emit] in Hrecs; apply app_inv_head in Hrecs; congruence).
-  all: subst f1; exists ls, f; cbn [st_wl set_wl].
+  all: subst f1; exists (label_lines (d_label a)), f; cbn [st_wl set_wl].
+  all: split; [reflexivity|].
   all: split; [rewrite Hw, Wc, emit_emit; reflexivity|].
   all: repeat (split; [assumption|]); assumption.
 Qed.
@@ -344,7 +360,7 @@ Proof.
   intro H. destruct e as [e|].
   - destruct (distribute_quiet_fail _ _ _ _ _ _ _ H) as (new & Hw & _ & Hq).
     apply emits_full_quiet. exists new. split; [exact Hw|apply Hq; discriminate].
-  - destruct (distribute_multi _ _ _ _ _ _ H) as (ls & f & Hw & _ & H0 & Hle & Hfit & _).
+  - destruct (distribute_multi _ _ _ _ _ _ H) as (ls & f & _ & Hw & _ & H0 & Hle & Hfit & _).
     exists (map RC ls ++ [RR f])%list. split; [exact Hw|]. apply Forall_app. split.
     + apply Forall_forall. intros r Hin. apply in_map_iff in Hin. destruct Hin as (l & <- & _). exact I.
     + constructor; [|constructor]. cbn [bounded_rec_full]. repeat split; assumption.
@@ -663,7 +679,9 @@ Qed.
 (** [transfer] raises InvalidOperationError only because a planned step is above max_volume *)
 Theorem transfer_invalid s ks swells kd dwells vols label ws pb kw s' :
   transfer s ks swells kd dwells vols label ws pb kw = (s', Some EInvalidOp) ->
-  exists mode sw dw v,
+  exists Ls Ld mode sw dw v,
+    nth_error (st_lw s) ks = Some Ls /\ nth_error (st_lw s) kd = Some Ld /\
+    optimize_partition_by (is_trough (lw_geom Ls)) (is_trough (lw_geom Ld)) pb = Ok mode /\
     In (Step sw dw v) (plan (w_autosplit (st_wl s)) (w_max (st_wl s)) mode (t_triples swells dwells vols)) /\
     w_max (st_wl s) < v.
 Proof.
@@ -672,13 +690,13 @@ Proof.
   fold (t_triples swells dwells vols).
   intro H.
   destruct (w_dev (st_wl s)); [| |discriminate].
-  all: destruct (nth_error (st_lw s) ks) as [Ls|]; [|discriminate].
-  all: destruct (nth_error (st_lw s) kd) as [Ld|]; [|discriminate].
+  all: destruct (nth_error (st_lw s) ks) as [Ls|] eqn:ELs; [|discriminate].
+  all: destruct (nth_error (st_lw s) kd) as [Ld|] eqn:ELd; [|discriminate].
   all: match type of H with (if ?c then _ else _) = _ => destruct c; [discriminate|] end.
   all: match type of H with (if ?c then _ else _) = _ => destruct c; [discriminate|] end.
   all: match type of H with (if ?c then _ else _) = _ => destruct c; [discriminate|] end.
   all: destruct (optimize_partition_by (is_trough (lw_geom Ls)) (is_trough (lw_geom Ld)) pb)
-         as [mode|eo]; [|discriminate].
+         as [mode|eo] eqn:Emode; [|discriminate].
   all: destruct (comment (st_wl s) label) as [w [ec|]] eqn:Ec;
          [injection H as _ ->; apply comment_err in Ec; discriminate|].
   all: destruct (comment_cfg _ _ _ _ Ec) as (C1 & C2 & _); pose proof (comment_max _ _ _ _ Ec) as Cm.
@@ -687,7 +705,8 @@ Proof.
   all: try (destruct (ks =? kd)%nat; discriminate).
   all: injection H as _ ->.
   all: destruct (exec_invalid _ _ _ _ _ _ _ Ee) as (sw & dw & v & Hin & Hlt); cbn [st_wl set_wl] in Hlt.
-  all: exists mode, sw, dw, v; rewrite Cm in *; rewrite <- ?C1, <- ?C2; split; [exact Hin|exact Hlt].
+  all: exists Ls, Ld, mode, sw, dw, v; rewrite Cm in *; rewrite <- ?C1, <- ?C2.
+  all: split; [reflexivity|]; split; [reflexivity|]; split; [exact Emode|]; split; [exact Hin|exact Hlt].
 Qed.
 
 (** hence an automatically split transfer is never refused for being too large *)
@@ -695,7 +714,7 @@ Theorem transfer_autosplit_never_invalid s ks swells kd dwells vols label ws pb 
   w_autosplit (st_wl s) = true -> 0 < w_max (st_wl s) ->
   transfer s ks swells kd dwells vols label ws pb kw = (s', Some e) -> e <> EInvalidOp.
 Proof.
-  intros Ha Hm H ->. destruct (transfer_invalid _ _ _ _ _ _ _ _ _ _ _ H) as (mode & sw & dw & v & Hin & Hlt).
+  intros Ha Hm H ->. destruct (transfer_invalid _ _ _ _ _ _ _ _ _ _ _ H) as (Ls & Ld & mode & sw & dw & v & _ & _ & _ & Hin & Hlt).
   rewrite Ha in Hin. destruct (plan_steps_positive _ _ _ _ _ _ _ Hm Hin) as (_ & Hle & _).
   specialize (Hle eq_refl). lra.
 Qed.
